@@ -210,16 +210,20 @@ func Last[T any](iter Iterator[T], n int) []T {
 		if !ok {
 			break
 		}
-		buf[i%n] = item
+		if n > 0 {
+			buf[i%n] = item
+		}
 		i++
 	}
 	if i < n {
 		return buf[:i]
 	}
 	out := make([]T, n)
-	idx := i % n
-	copy(out, buf[idx:])
-	copy(out[n-idx:], buf[:idx])
+	if n > 0 {
+		idx := i % n
+		copy(out, buf[idx:])
+		copy(out[n-idx:], buf[:idx])
+	}
 	return out
 }
 
